@@ -152,8 +152,8 @@ def shard(mon, tier, rng, shard_no, nshards):
         random_sets(mon, rng, 10, 120)
         random_sets(mon, rng, 1, 300)
     else:
-        random_sets(mon, rng, 200, 150)
-        random_sets(mon, rng, 10, 300)
+        random_sets(mon, rng, 800, 150)
+        random_sets(mon, rng, 30, 300)
 
 
 def replay(mon, rec):
